@@ -1065,6 +1065,39 @@ MECH = {'avg1': 'metric.average', 'avg2': 'metric.average:multidim', 'avg3_py': 
         'wf_np64': 'metric.welford:numpy_int64_values'}
 
 
+def run_ts_odd_trees(ctx, i):
+  """Parameter trees that are not dicts: a bare array, a list / tuple of NumPy or JAX arrays. flax.training TrainState does what
+  tx.update + optax.apply_updates by hand does on them."""
+  import jax
+  import jax.numpy as jnp
+  import optax
+  from flax.training import train_state
+  kind = ['bare_jax', 'bare_numpy', 'list_numpy', 'tuple_jax', 'list_numpy_nested', 'dict_control'][i % 6]
+  tx_name = ['sgd', 'adam'][(i // 6) % 2]
+  desc = dict(params=kind, tx=tx_name)
+  with ctx.case('ts_odd_trees', i, desc, nontrivial=kind != 'dict_control'):
+    nr = np.random.default_rng(i)
+    a, b = nr.normal(size=(3,)).astype(np.float32), nr.normal(size=(2, 2)).astype(np.float32)
+    params = {'bare_jax': jnp.asarray(a), 'bare_numpy': a, 'list_numpy': [a, b], 'tuple_jax': (jnp.asarray(a), jnp.asarray(b)),
+              'list_numpy_nested': [a, [b, a * 2]], 'dict_control': {'a': a, 'b': b}}[kind]
+    tx = optax.sgd(0.1) if tx_name == 'sgd' else optax.adam(1e-2)
+    try:
+      st = train_state.TrainState.create(apply_fn=None, params=params, tx=tx)
+      ref_p, ref_s = params, tx.init(params)
+      for t in range(2):
+        g = jax.tree_util.tree_map(lambda x: jnp.asarray(x) * 0.5 + t, params)
+        st = st.apply_gradients(grads=g)
+        upd, ref_s = tx.update(g, ref_s, ref_p)
+        ref_p = optax.apply_updates(ref_p, upd)
+    except Exception as e:  # noqa: BLE001
+      ctx.check(False, 'ts.params_vs_optax:non_dict_parameter_tree', dict(case=desc, error=repr(e)[:200]))
+      return
+    ctx.op('training.TrainState(non-dict parameter tree)')
+    gl, wl = jax.tree_util.tree_leaves(st.params), jax.tree_util.tree_leaves(ref_p)
+    ok = jax.tree_util.tree_structure(st.params) == jax.tree_util.tree_structure(ref_p) and all(np.allclose(x, y, rtol=1e-6, atol=1e-7) for x, y in zip(gl, wl))
+    ctx.check(ok and int(st.step) == 2, 'ts.params_vs_optax:non_dict_parameter_tree', lambda: dict(case=desc))
+
+
 def run_metric_empty_case(ctx, i):
   """Zero-size update() calls between real ones: the values seen are the same, so the statistic is the same (an evaluation
   loop whose last shard is empty, a filtered batch with no survivors)."""
@@ -1399,6 +1432,8 @@ def run(ctx):
   for idx, (kind, sid, comp) in ctx.items(cases, 'metric'):
     run_metric_case(ctx, idx, kind, sid, comp)
   ctx.exhaustive['metric.compositions_n<=%d' % N_MAX] = True
+  for i in ctx.indices(12, 'ts_odd_trees'):
+    run_ts_odd_trees(ctx, i)
   for i in ctx.indices(84 if quick else 336, 'metric_empty'):
     run_metric_empty_case(ctx, i)
   ctx.extra['cpu_s.metric'] = round(time.time() - t0, 1)
